@@ -122,12 +122,16 @@ def discharge(ob: Obligation, timeout_ms=10000, use_cvc5=True, hook=None):
         if ob.params:      # prefer a small counter-model (replayable): bound every integer leaf of the inputs
             small = _small_bounds(ob.params)
             if small:
-                s.push()
-                s.add(*small)
-                s.set('timeout', 3000)
-                if s.check() == z3.sat:
-                    m = s.model()
-                s.pop()
+                for B in (6, 16):        # only on a refutation: worth the time, a replayable input is what makes the report useful
+                    s.push()
+                    s.add(*_small_bounds(ob.params, B))
+                    s.set('timeout', 10000)
+                    ok = s.check() == z3.sat
+                    if ok:
+                        m = s.model()
+                    s.pop()
+                    if ok:
+                        break
         cex = None
         if ob.params:
             try:
